@@ -112,7 +112,21 @@ func limiterMethods(l core.Limiter, bag *tokenBag, blocking bool) []c17Method {
 			complete(ls, a)
 		}
 	}
-	m := []c17Method{{"Acquire", true, acq}, {"Complete", true, done}, {"Complete2", true, done}}
+	cycle := func(g, a int) { // acquire + immediate success: feeds the sampling window quickly
+		for i := 0; i < 3; i++ {
+			ctx := stackKeyCtx(context.Background(), "a")
+			var cancel context.CancelFunc = func() {}
+			if blocking {
+				ctx, cancel = context.WithTimeout(ctx, time.Millisecond)
+			}
+			ls, ok := l.Acquire(ctx)
+			cancel()
+			if ok && ls != nil {
+				ls.OnSuccess()
+			}
+		}
+	}
+	m := []c17Method{{"Acquire", true, acq}, {"Complete", true, done}, {"Complete2", true, done}, {"SuccessCycle", true, cycle}}
 	if s, ok := l.(stringer); ok {
 		m = append(m, c17Method{"String", false, func(g, a int) { _ = s.String() }})
 	}
@@ -320,6 +334,9 @@ func c17Subjects() []c17Subject {
 			bag := newBag()
 			blocking := cfg.Kind != "default"
 			ms := limiterMethods(st.lim, bag, blocking)
+			// gauges registered by strategies, limits and the queue limiter are polled by a registry's own
+			// goroutine in production: polling them concurrently is public-API use
+			ms = append(ms, c17Method{"PollGauges", false, func(g, a int) { st.reg.pollAll() }})
 			if st.def != nil && cfg.Kind != "default" {
 				ms = append(ms, c17Method{"Inner.String", false, func(g, a int) { _ = st.def.String() }},
 					c17Method{"Inner.EstimatedLimit", false, func(g, a int) { _ = st.def.EstimatedLimit() }})
@@ -331,6 +348,8 @@ func c17Subjects() []c17Subject {
 	aimd := func() core.Limit { return limit.NewAIMDLimit("t", 3, 0.9, 1, nil) }
 	subs = append(subs,
 		mkStack("default(simple,vegas)", StackCfg{Kind: "default", Strategy: "simple", Limit: 3}, vegas),
+		mkStack("default(simple,aimd,tiny-window)", StackCfg{Kind: "default", Strategy: "simple", Limit: 4, WinNs: 1}, aimd),
+		mkStack("queue-fifo(tiny-window)", StackCfg{Kind: "queue", Strategy: "precise", Limit: 2, Ordering: "fifo", Backlog: 3, TimeoutMs: 1, WinNs: 1}, aimd),
 		mkStack("default(precise,aimd)", StackCfg{Kind: "default", Strategy: "precise", Limit: 3}, aimd),
 		mkStack("default(lookup,vegas)", StackCfg{Kind: "default", Strategy: "lookup", Limit: 3}, vegas),
 		mkStack("default(predicate,aimd)", StackCfg{Kind: "default", Strategy: "predicate", Limit: 3}, aimd),
@@ -500,7 +519,7 @@ func mustJSON(v any) json.RawMessage {
 func TestC17_api_Race(t *testing.T) {
 	kit.RequireMode(t, "race")
 	kit.Check(t, kit.Prop[c17Case]{
-		ID: "C17", Quick: 250, Thor: 4_000,
+		ID: "C17", Quick: 400, Thor: 5_000,
 		Rule: "subject (every limit, wrapper, strategy incl. partition objects, limiter stack, measurement, both registries) x 2-8 goroutines x 10-120 generated calls from the subject's table of exported methods (mutators, accessors, String, dynamic partitions, NotifyOnChange, Register*, Start/Stop), run under the Go race detector; non-trivial = >=2 goroutines sharing the object with >=1 mutator call",
 		Gen:  genC17, Run: runC17, NoShrink: true,
 	})
